@@ -41,7 +41,8 @@ def _make_module(tag):
         @staticmethod
         def decode(params):
             LOG.append(('system', tag, params['id'], params.get('model')))
-            return DSystem(params['id'], params['model'], priority=params.get('priority', 0))
+            kw = {k: params[k] for k in ('frequency', 'start', 'end') if k in params}
+            return DSystem(params['id'], params['model'], priority=params.get('priority', 0), **kw)
 
     class DAgent(Agent):
         _verif_user = True
@@ -71,6 +72,9 @@ def build(desc):
     for k, s in enumerate(desc['systems']):
         sm = 'replayers.dmod_' + s['mod']
         d = {'name': 'DSystem', 'module': sm, 'params': {'id': s['id'], 'priority': s['prio']}}
+        for k_ in ('frequency', 'start', 'end'):
+            if k_ in s:
+                d['params'][k_] = s[k_]
         if s['pre']:
             d['pre_system_init'] = {'func': 'hook', 'module': sm, 'params': {'name': f'pre_sys{k}'}}
         if s['post']:
@@ -154,6 +158,15 @@ def run_history(h, props=None):
                          key=lambda x: -x[1])
         if sorted(ids) != sorted(exp_ids):
             out.append(('C18', f'{w}: model contains systems {ids}, listed {exp_ids}'))
+        import sys as _sys
+        for s_ in desc['systems']:
+            obj = model.systems.systems.get(s_['id'])
+            if obj is None:
+                continue
+            sched = (obj.frequency, obj.start, obj.end)
+            want = (s_.get('frequency', 1), s_.get('start', 0), s_.get('end', _sys.maxsize))
+            if sched != want:
+                out.append(('C18', f'{w}: system {s_["id"]} decoded with (frequency, start, end) = {sched}, declared {want}'))
         exp_agents = [f'g{k}_{i}' for k, g in enumerate(desc['groups']) for i in range(g['n'])]
         if list(model.environment.agents) != exp_agents:
             out.append(('C18', f'{w}: model contains agents {list(model.environment.agents)}, listed {exp_agents}'))
@@ -167,8 +180,11 @@ def run_history(h, props=None):
 
 def _desc(rng):
     return dict(pre=rng.random() < 0.5, post=rng.random() < 0.5, mod=rng.choice('ab'),
-                systems=[dict(id=f's{k}', prio=rng.randint(-2, 2), pre=rng.random() < 0.4, post=rng.random() < 0.4,
-                              mod=rng.choice('ab')) for k in range(rng.randint(0, 3))],
+                systems=[dict(dict(id=f's{k}', prio=rng.randint(-2, 2), pre=rng.random() < 0.4, post=rng.random() < 0.4,
+                                   mod=rng.choice('ab')),
+                              **rng.choice([{}, {}, {'end': rng.randint(0, 3)}, {'start': rng.randint(-1, 2)},
+                                            {'frequency': rng.randint(1, 3), 'start': rng.randint(0, 2),
+                                             'end': rng.randint(0, 4)}])) for k in range(rng.randint(0, 3))],
                 groups=[dict(n=rng.choice([0, 0, 1, 2, 3]), pre=rng.random() < 0.5, post=rng.random() < 0.5,
                              mod=rng.choice('ab')) for _ in range(rng.randint(0, 3))])
 
@@ -180,6 +196,9 @@ def histories(seed, budget, prop='C18'):
                 groups=[dict(n=2, pre=True, post=True, mod='a'), dict(n=0, pre=True, post=True, mod='a'),
                         dict(n=1, pre=False, post=False, mod='a')])
     yield ('decode', [full])
+    yield ('decode', [dict(full, systems=[dict(id='one', prio=0, pre=False, post=False, mod='a', end=0),
+                                          dict(id='win', prio=1, pre=False, post=False, mod='a', start=2, end=5, frequency=3),
+                                          dict(id='neg', prio=1, pre=False, post=False, mod='b', start=-1, end=-1)])])
     yield ('decode', [dict(pre=False, post=False, mod='a', systems=[], groups=[])])
     other = dict(full, mod='b', systems=[dict(s, mod='b') for s in full['systems']],
                  groups=[dict(g, mod='b') for g in full['groups']])
